@@ -100,6 +100,8 @@ func Build(entries []Entry, bf uint, format string) (Root, map[string][]byte) {
 type KeyFuncs struct {
 	Decode  func([]byte) (interface{}, error)
 	Marshal Marshal
+	// Compare, when set, is the configured key order (otherwise the published default order)
+	Compare func(a, b interface{}) (int, error)
 }
 
 // Reachable walks a persisted version and returns name -> decoded node for
@@ -198,7 +200,13 @@ func ValidateShape(root Root, bf uint, decode func([]byte) (*Node, error), load 
 					return fmt.Errorf("node %s key %d: %w", name, i, err)
 				}
 				if haveLast {
-					c, err := Compare(last, k, kf.Marshal)
+					var c int
+					var err error
+					if kf.Compare != nil {
+						c, err = kf.Compare(last, k)
+					} else {
+						c, err = Compare(last, k, kf.Marshal)
+					}
 					if err != nil {
 						return err
 					}
